@@ -134,7 +134,10 @@ def run_template(prog, ctx, C):
         resolved.append(op)
         st_, exc = it.apply(op)
         status.append(st_)
-        if st_ == "raised_arg" and not op.get("fault"):
+        # (structural failures only - indexing, arithmetic, types; a constructor refusing VALUES is the
+        #  same refusal the plain values get and is handled by the comparison with direct construction)
+        if st_ == "raised_arg" and not op.get("fault") and isinstance(
+                exc, (IndexError, KeyError, TypeError, AttributeError, ZeroDivisionError)):
             # the arguments of the call could not even be written down with the variables
             # (indexing, arithmetic, waveform / pulse constructors) although the plain values
             # are accepted: there is no template for this program
